@@ -581,13 +581,19 @@ func c01Sequence(cs *drv.Case, vals []cval, sched int, withData bool) {
 			return
 		}
 	}
-	// stream reader under fragmentation
-	for _, bytesBacked := range []bool{false, true} {
+	// stream reader under fragmentation: over the buffered reader on a hostile source, over a bytes
+	// reader, and over a foreign bufiox.Reader implementation
+	for kind := 0; kind < 3; kind++ {
 		var rd bufiox.Reader
-		if bytesBacked {
+		var src *doubles.Source
+		switch kind {
+		case 0:
+			src = &doubles.Source{Data: stream, Len: len(stream), ErrAt: len(stream), Err: io.EOF, Sched: sched, WithData: withData, ZeroMax: 2, R: cs.R, Budget: 10*len(stream) + 100000}
+			rd = bufiox.NewDefaultReader(src)
+		case 1:
 			rd = bufiox.NewBytesReader(stream)
-		} else {
-			rd = bufiox.NewDefaultReader(&doubles.Source{Data: stream, Len: len(stream), ErrAt: len(stream), Err: io.EOF, Sched: sched, WithData: withData, ZeroMax: 2, R: cs.R, Budget: 10*len(stream) + 100000})
+		default:
+			rd = &doubles.NBReader{B: stream}
 		}
 		br := thrift.NewBufferReader(rd)
 		for i, v := range vals {
@@ -599,7 +605,7 @@ func c01Sequence(cs *drv.Case, vals []cval, sched int, withData bool) {
 			}
 			if mm != "" || int(br.Readn()-before) != want {
 				m := desc(i)
-				m["bytes_backed"] = bytesBacked
+				m["reader_kind"] = []string{"DefaultReader", "BytesReader", "foreign bufiox.Reader"}[kind]
 				m["message"] = fmt.Sprintf("stream reader: %s; consumed %d, want %d", mm, br.Readn()-before, want)
 				cs.Fail("stream-reader", M{"kind": kindNames[v.K]}, m)
 				br.Recycle()
@@ -609,9 +615,16 @@ func c01Sequence(cs *drv.Case, vals []cval, sched int, withData bool) {
 				rd.Release(nil)
 			}
 		}
+		if src != nil && src.EndReads > 0 && !(withData && src.EndReads == 0) {
+			// every byte of the values had been delivered and decoded, yet the reader asked its source for
+			// more: on a live connection that is a read that blocks until the peer sends something else
+			cs.Fail("stream-reader-demands-more-than-the-value", nil, M{"reads_after_all_data_was_delivered": src.EndReads, "schedule": doubles.SchedNames[sched], "message": "decoding the values made the reader call Read after the source had delivered all of their bytes"})
+			br.Recycle()
+			return
+		}
 		// past the end: the source's error must surface (shared with C17)
 		if _, err := br.ReadByte(); err == nil || !errors.Is(err, io.EOF) {
-			cs.Fail("stream-reader-eof", nil, M{"bytes_backed": bytesBacked, "message": fmt.Sprintf("reading past the end returned %v, want an error matching io.EOF", err)})
+			cs.Fail("stream-reader-eof", nil, M{"reader_kind": kind, "message": fmt.Sprintf("reading past the end returned %v, want an error matching io.EOF", err)})
 		}
 		rd.Release(nil)
 		br.Recycle()
